@@ -22,7 +22,10 @@ L2 == {B("mul", a, b) : a, b \in Sub(L1, 14)} \cup {B("add", a, b) : a, b \in Su
       \cup {U(f, U(g, x)) : f, g \in {"sin", "tan", "exp", "sinh", "atan", "asin", "tanh"}} \cup {B("pow", U("cos", x), a) : a \in {TInt(-1), TInt(2), TRat(1, 2), TInt(-2)}}
       \cup {U("exp", U("neg", B("pow", x, TInt(2)))), U("log", U("cos", x)), U("log", B("div", B("add", TInt(1), x), B("sub", TInt(1), x))), B("mul", B("pow", x, TInt(2)), U("sin", x)),
             B("div", U("sin", x), B("add", TInt(1), U("sin", x))), B("div", B("sub", U("exp", x), TInt(1)), B("add", U("exp", x), TInt(1)))}
-Cases == {[op |-> "series", e |-> e, x |-> "x", n |-> n] : e \in Sub(L1, 150), n \in {1, 2, 5, 7}} \cup {[op |-> "series", e |-> e, x |-> "x", n |-> 6] : e \in Sub(L2, 120)}
+\* always present: every function of an argument without / with a linear term, at orders that end on odd and even powers
+Core == {U(f, u) : f \in F0, u \in {B("pow", x, TInt(2)), B("pow", x, TInt(3)), B("add", x, B("pow", x, TInt(2)))}}
+Cases == {[op |-> "series", e |-> e, x |-> "x", n |-> n] : e \in Core, n \in {3, 4, 7}}
+         \cup {[op |-> "series", e |-> e, x |-> "x", n |-> n] : e \in Sub(L1, 110), n \in {1, 2, 5, 7}} \cup {[op |-> "series", e |-> e, x |-> "x", n |-> 6] : e \in Sub(L2, 120)}
 ASSUME PrintT(<<"cases", Cardinality(Cases)>>)
 ASSUME ndJsonSerialize(IOEnv.OUT, SetToSeq(Cases))
 VARIABLE dummy
